@@ -3,7 +3,7 @@ from . import relayworld as rw
 
 PROP = 'C15'
 PROFILE = 'c15'
-QUICK = (256, 40, 60.0)
+QUICK = (160, 40, 60.0)
 THOROUGH = (1500, 60, 840.0)
 boot, execute, cfg_sig, nontrivial = rw.boot, rw.execute, rw.cfg_sig, rw.nontrivial
 SHRINK_LISTS, SHRINK_DICTS = rw.SHRINK_LISTS, rw.SHRINK_DICTS
